@@ -63,6 +63,12 @@ func c03Model(t c03Table, input []string) (log []c03Event, dead bool, certain []
 // c03ModelFull also returns the number of invocations fixed by the statement when the
 // first dead key has been handled (everything after it is unspecified).
 func c03ModelFull(t c03Table, input []string) (log []c03Event, dead bool, certain []int, fixed int) {
+	return c03ModelOpt(t, input, false)
+}
+
+// c03ModelOpt: with local set, a key that matches nothing in the table is a dead key too (a key
+// unbound in a local keymap is handed to the main keymap, which is outside the table).
+func c03ModelOpt(t c03Table, input []string, local bool) (log []c03Event, dead bool, certain []int, fixed int) {
 	fixed = -1
 	exact := func(s string) *c03Bind {
 		for i := range t {
@@ -87,7 +93,10 @@ func c03ModelFull(t c03Table, input []string) (log []c03Event, dead bool, certai
 	}
 	var stream []key
 	for i, k := range input {
-		stream = append(stream, key{k, i})
+		// a typed "key" of the alphabet may be two keys delivered in one read (ESC-a)
+		for _, r := range k {
+			stream = append(stream, key{string(r), i})
+		}
 	}
 	certain = make([]int, len(input))
 	for i := range certain {
@@ -128,6 +137,26 @@ func c03ModelFull(t c03Table, input []string) (log []c03Event, dead bool, certai
 		default:
 			// cand matches nothing: the statement fixes what runs (the remembered shorter
 			// binding, once) but not what becomes of the other keys: dead key
+			if remembered != nil && !dead {
+				// the shorter binding runs, once, now; the keys typed after its own sequence
+				// (the one that ruled the longer bindings out included) were typed none the less:
+				// they are matched afresh, after the body of the shorter binding if it is a macro
+				rest := cand[len(remembered.Seq):]
+				var back []key
+				for _, r := range rest {
+					back = append(back, key{string(r), k.typed})
+				}
+				stream = append(back, stream...)
+				b := remembered
+				pending, remembered = "", nil
+				fire(b, k.typed)
+				continue
+			}
+			if pending == "" && !dead && !local {
+				// a key that by itself matches no binding and extends none: nothing runs
+				// ("keys matching no binding run nothing"); the keys after it are typed as usual
+				continue
+			}
 			first := !dead
 			dead = true
 			if remembered != nil {
